@@ -558,7 +558,7 @@ theorem step_all (h1 : inactiveSettleShapeOk = true) (h2 : settleShapeOk = true)
       · exact addDeposit_both ha.both h
     · exact ha.both
   | cancel pid who =>
-    simp only [step, Model.C15.ofExcept]
+    simp only [step, Model.C15.ofExcept, cancelRun_eq]
     split
     · rename_i s' h; exact cancel_both ha.both h
     · exact ha.both
